@@ -19,6 +19,7 @@ type Env interface {
 	Post(h any)               // immediately after it
 	Sync()                    // plain scheduling point in harness code
 	Sleep(ns int64)           // sleep on the simulated clock
+	Snooze(decisions int)     // stay unscheduled for that many scheduler decisions (lateness measured in the others' progress, not in time)
 	Seq() int64               // global event sequence number (scheduler decisions)
 	Event(kind, detail string)
 	Probe(name string)
@@ -182,8 +183,10 @@ func Consume[T any](env Env, name string, ch chan T, delays []int64, st *Stream[
 			if len(delays) > 0 {
 				if d := delays[i%len(delays)]; d > 0 {
 					env.Sleep(d)
-				} else if d < 0 {
+				} else if d == -1 {
 					env.Sync()
+				} else if d < -1 {
+					env.Snooze(int(-d))
 				}
 			}
 			i++
